@@ -1230,13 +1230,18 @@ class LuaASTEchoWriter(BaseLuaWriter):
                             node, self._tokens[self._pos].code)
                     for t in self._walk(node.fields[i]):
                         yield t
-        # Process a trailing fieldsep, if any.
-        self._indent -= 1
-        yield self._get_code_for_spaces(node)
+        # Process a trailing fieldsep, if any. (It is still inside the
+        # braces, so look for it before the indent level drops.)
         if not self._args.get('ignore_tokens'):
-            if (self._tokens[self._pos].matches(lexer.TokSymbol(b',')) or
-                    self._tokens[self._pos].matches(lexer.TokSymbol(b';'))):
-                yield self._get_text(node, self._tokens[self._pos].code)
+            pos = self._pos
+            while isinstance(self._tokens[pos], (lexer.TokSpace,
+                                                 lexer.TokNewline,
+                                                 lexer.TokComment)):
+                pos += 1
+            if (self._tokens[pos].matches(lexer.TokSymbol(b',')) or
+                    self._tokens[pos].matches(lexer.TokSymbol(b';'))):
+                yield self._get_text(node, self._tokens[pos].code)
+        self._indent -= 1
         yield self._get_text(node, b'}')
 
     def _walk_FieldExpKey(self, node):
